@@ -188,10 +188,20 @@ where
 
                 let mut target = target.additional();
                 if let Some(opt) = source.opt() {
-                    if let Err(err) = target.push(opt.as_record()) {
-                        warn!(
-                            "Error while truncating response: unable to push OPT record: {err}"
-                        );
+                    let res = target.push(opt.as_record());
+                    // The options in the OPT record can make even the
+                    // truncated response larger than the limit.
+                    let too_large =
+                        target.as_slice().len() > max_response_size;
+                    if too_large {
+                        target.rewind();
+                    }
+                    if res.is_err() || too_large {
+                        if let Err(err) = res {
+                            warn!(
+                                "Error while truncating response: unable to push OPT record: {err}"
+                            );
+                        }
                         // As the client had an OPT record and RFC 6891 says
                         // when truncating that there MUST be an OPT record,
                         // attempt to push just the empty OPT record (as the
